@@ -20,6 +20,15 @@ package types
 //@ ghost func cpcKeyTable(k bytes) int
 //@ axiom cpc_key_tables: cpcKeyTable(b1(1)) == 1 && (forall a bytes :: cpcKeyTable(bcat(b1(2), a)) == 2) && (forall d bytes :: cpcKeyTable(bcat(b1(3), d)) == 3) && (forall a bytes, b bytes :: cpcKeyTable(bcat(bcat(bcat(bempty(), b1(4)), a), b)) == 4)
 
+// (helper cpc2, C18) the registry key determines the address (fixed layout: one prefix byte, then the 20 address bytes): an
+// inverse function, so that two different addresses have two different registry keys (trusted first-principles lemma about
+// byte strings, like cpc_key_tables). The two fixed-address contracts sit at two different, non-zero addresses
+// (precompiles.go init(): 0xCC01..01 and 0xCC02..02; the initialiser itself panics on a duplicate; T4: package-level
+// variables are not modified after init).
+//@ ghost func metaKeyAddr(k bytes) common.Address
+//@ axiom cpc_meta_key_inverse: forall a common.Address :: metaKeyAddr(metaKeyB(a)) == a
+//@ axiom cpc_fixed_addresses: CpcStakingFixedAddress != CpcBech32FixedAddress && CpcStakingFixedAddress != zero(type(common.Address)) && CpcBech32FixedAddress != zero(type(common.Address))
+
 // Package-level key prefixes hold the values their initialisers give them (T4: package-level variables are not
 // modified after init; the initialisers are the one-byte literals in keys.go, so len == cap == 1: appending to a
 // prefix always allocates a new backing array and never writes into the shared one).
